@@ -81,6 +81,13 @@ class StmtMixin:
             self.exc_types[tstr] = len(self.exc_types) + 1
         return self.exc_types[tstr]
 
+    def site_id(self, cx):
+        """numeric id of the function containing a throw: lets contracts say WHICH rule's raise() fired"""
+        self.sites = getattr(self, 'sites', {})
+        if cx.cname not in self.sites:
+            self.sites[cx.cname] = len(self.sites) + 1
+        return self.sites[cx.cname]
+
     def throw(self, e, cx):
         inner = e.get('inner', [])
         if not inner:
@@ -89,9 +96,12 @@ class StmtMixin:
             for l in self.exc_edge_throw(cx):
                 self.emit_pre(cx, l)
             return
-        x = unwrap(inner[0], ('ExprWithCleanups', 'CXXBindTemporaryExpr', 'ParenExpr', 'CXXFunctionalCastExpr',
-                              'MaterializeTemporaryExpr', 'ImplicitCastExpr'))
-        ts = self.etype(inner[0])
+        self.throw_value(inner[0], cx, nested=False)
+
+    def throw_value(self, valnode, cx, nested):
+        x = unwrap(valnode, ('ExprWithCleanups', 'CXXBindTemporaryExpr', 'ParenExpr', 'CXXFunctionalCastExpr',
+                             'MaterializeTemporaryExpr', 'ImplicitCastExpr'))
+        ts = self.etype(valnode)
         base, _ = parse_type(ts)
         tid = self.exc_type_id(base)
         tag = sanitize(base.split('<')[0].split('::')[-1])
@@ -112,20 +122,30 @@ class StmtMixin:
                 except Unsupported:
                     cx.pre = saved_pre
                     continue
-        name = 'vf_throw_%s_%d_%s' % (tag, len(args), short_hash(base + '|' + '|'.join(sig), 6))
+        name = 'vf_throw_%s%s_%d_%s' % ('nested_' if nested else '', tag, len(args), short_hash(base + '|' + '|'.join(sig), 6))
         if name not in self.fn_text:
             ps = ', '.join('%s a%d' % (t, i) for i, t in enumerate(sig)) or 'void'
-            hook = 'VF_ON_THROW_%s_%d' % (tag, len(args))
-            body = ['  vf_exc.pending = 1; vf_exc.type = %d; vf_exc.obj = ++vf_exc_counter;' % tid,
+            def akind(t):
+                if 'S_memory_input' in t or 'S_buffer_input' in t or 'S_action_input' in t:
+                    return 'in'
+                if 'S_position' in t:
+                    return 'pos'
+                if t.replace(' ', '') in ('char*', 'constchar*'):
+                    return 'str'
+                return 'x'
+            hook = 'VF_ON_THROW_%s_%s' % (tag, '_'.join(akind(t) for t in sig) or 'none')
+            body = ['  vf_exc.nested_obj = 0;' if not nested else '  vf_exc.nested_obj = vf_exc.obj;',
+                    '  vf_exc.pending = 1; vf_exc.type = %d; vf_exc.obj = ++vf_exc_counter;' % tid,
                     '#ifdef %s' % hook,
                     '  %s(%s);' % (hook, ', '.join('a%d' % i for i in range(len(sig)))),
                     '#endif']
             self.fn_proto[name] = 'void %s(%s);' % (name, ps)
             self.fn_text[name] = '/* throw %s */\nvoid %s(%s)\n{\n%s\n}' % (base, name, ps, '\n'.join(body))
-            self.fn_info[name] = {'cname': name, 'pretty': 'throw ' + base, 'kind': 'throw', 'exc_type': tid}
+            self.fn_info[name] = {'cname': name, 'pretty': 'throw ' + base, 'kind': 'throw', 'exc_type': tid, 'calls': []}
         if self.cur_calls is not None:
             self.cur_calls.add(name)
         self.emit_pre(cx, '%s(%s);' % (name, ', '.join(args)))
+        self.emit_pre(cx, 'vf_exc.site = %d;' % self.site_id(cx))
         for l in self.exc_edge_throw(cx):
             self.emit_pre(cx, l)
 
@@ -715,6 +735,11 @@ class StmtMixin:
                 if fti['kind'] == 'rec' and not fti['suf']:
                     for l in self.dtor_call('self->%s' % f['name'], fti['rec'], cx):
                         out.append('  ' + l)
+        if body is not None and cx.ret_ctype != 'void' and not cx.sret and kind not in ('CXXConstructorDecl', 'CXXDestructorDecl'):
+            last = body.get('inner', [])[-1] if body.get('inner') else None
+            if last is None or last.get('kind') != 'ReturnStmt':
+                out.append('  __CPROVER_assert(0, "repo_assert control reaches the end of non-void function %s");' % cname)
+                out.append('  ' + self.dummy_return(cx))
         self.pop_scope(cx)
         info['loops'] = cx.loops
         txt = '/* %s\n   %s */\n%s\n/*@CONTRACT %s@*/\n{\n%s\n}' % (pretty, info['loc'], sig, cname, '\n'.join('  ' + l for l in out))
